@@ -95,6 +95,17 @@ var entries = map[string]func(in []byte) error{
 		blk := wire.NewMsgBlock(wire.NewBlockHeader(1, &chainhash.Hash{}, &chainhash.Hash{}, 0, 0))
 		blk.AddTransaction(tx)
 		bloom.NewMerkleBlock(bchutil.NewBlock(blk), f)
+		// a second filterload from the same peer: smaller, then larger than the first (nothing may be remembered)
+		for _, nb2 := range []int{nb / 2, 1, 2*nb + 3} {
+			if nb2 > 36000 {
+				nb2 = 36000
+			}
+			f.Reload(wire.NewMsgFilterLoad(make([]byte, nb2), uint32(in[0]), 7, wire.BloomUpdateType(in[5]%3)))
+			f.Matches(item)
+			f.Add(item)
+			f.MatchesOutPoint(wire.NewOutPoint(&chainhash.Hash{1}, 7))
+			f.MatchTxAndUpdate(bchutil.NewTx(tx))
+		}
 		f.Unload()
 		f.Matches(item)
 		return nil
